@@ -13,8 +13,12 @@
 (*                                                                                                                   *)
 (* The global route from a to b (documentation, "Calculating network paths"):                                         *)
 (*   - Z = the lowest common ancestor zone; sa, sb = a, b themselves or the child zones of Z containing them;          *)
-(*   - if Z declares a bypass route for (a, b), or for a pair (zone above a, zone above b) below Z, it is used:        *)
-(*     route(a, gw_src) . links . route(gw_dst, b);                                                                    *)
+(*   - if Z declares a bypass route for (a, b) themselves, it is used alone (documentation: "used in priority, with no *)
+(*     further routing computation", "between any hosts, even if they are not in the same zone");                      *)
+(*   - otherwise, if Z declares a bypass route for a pair (zone above a, zone above b) below Z - every zone on the     *)
+(*     path from a up to Z against every zone on the path from b up to Z, at whatever depths - it is used:             *)
+(*     route(a, gw_src) . links . route(gw_dst, b).  When several pairs have a bypass the one looked up first by       *)
+(*     NetZoneImpl::get_bypass_route is taken (see BPRank below: the documentation gives no order);                    *)
 (*   - otherwise the local route of Z from sa to sb gives (gw_src, links, gw_dst) and the result is                    *)
 (*     route(a, gw_src) . links . route(gw_dst, b)  ("up through gateways, across, down"), recursively;               *)
 (*   - the local route depends on the kind of Z: declared table (Full), any minimal chain of declared routes (Floyd,   *)
@@ -38,6 +42,11 @@ CommonLen(p, q) == CHOOSE k \in 0..RtMin(Len(p), Len(q)) :
                       /\ SubSeq(p, 1, k) = SubSeq(q, 1, k)
                       /\ (k = RtMin(Len(p), Len(q)) \/ p[k + 1] # q[k + 1])
 SeqSet(s) == { s[i] : i \in 1..Len(s) }
+HMax(a, b) == IF a >= b THEN a ELSE b
+\* position of the pair (i, j) in the enumeration (0,0) (0,1) (1,0) (1,1) (0,2) (2,0) (1,2) (2,1) (2,2) (0,3) ...
+\* (there are m * m pairs whose two indices are below m)
+PairRank(i, j) == LET m == HMax(i, j) IN
+                  m * m + (IF i = j THEN 2 * m ELSE 2 * RtMin(i, j) + (IF i < j THEN 0 ELSE 1))
 HasChildZone(P, z) == \E y \in 1..Len(P.nz) : P.nz[y].par = z
 RankOf(zr, n) == (CHOOSE i \in 1..Len(zr.mem) : zr.mem[i] = n) - 1
 
@@ -67,7 +76,9 @@ LnSeg(l)         == IF l = <<>> THEN <<>> ELSE <<Ln(l)>>
 
 \* known deviations of the implementation, used only to classify a rejection (never to accept one): with "uprev" the
 \* machine reverses, like NetZoneImpl::get_interzone_route, the multi-link routes taken on the way up; with "djkrev" it
-\* reverses, like DijkstraZone::get_local_route, the links of every multi-link one-hop route of a Dijkstra zone
+\* reverses, like DijkstraZone::get_local_route, the links of every multi-link one-hop route of a Dijkstra zone; with
+\* "nohbypx" it ignores, like NetZoneImpl::get_bypass_route, the bypass routes declared for two end points that are not
+\* both direct members of the declaring zone (see Expand)
 DevRev(dev, ctx, zonemember, l) == IF "uprev" \in dev /\ ctx = "up" /\ zonemember THEN RevSeq(l) ELSE l
 
 \* ------------------------------------------------------------------ expansion of a global segment a -> b (a # b)
@@ -88,9 +99,28 @@ Expand(P, X, dev, g) ==
       zb == IsZoneNp(P, sb)
       ancA == { P.nz[pa[k]].np : k \in (c + 1)..Len(pa) }
       ancB == { P.nz[pb[k]].np : k \in (c + 1)..Len(pb) }
-      BP == { i \in 1..Len(zr.byp) :
-                \/ (Len(pa) = c /\ Len(pb) = c /\ zr.byp[i].s = a /\ zr.byp[i].d = b)
-                \/ (zr.byp[i].s \in ancA /\ zr.byp[i].d \in ancB) }
+      \* ---- bypass routes declared by the common ancestor that apply to (a, b)
+      \* (1) a bypass for the end points themselves.  The documentation allows it "between any hosts, even if they are
+      \*     not in the same zone": XZone tells that a or b is not a direct member of the common ancestor (the
+      \*     implementation only looks the pair of end points up when both are direct members: with the deviation
+      \*     "nohbypx", used only to classify a rejection, the machine ignores such a bypass and raises "hbypskip")
+      XZone     == Len(pa) # c \/ Len(pb) # c
+      HostBPdoc == { i \in 1..Len(zr.byp) : zr.byp[i].s = a /\ zr.byp[i].d = b }
+      HostSkip  == XZone /\ "nohbypx" \in dev /\ HostBPdoc # {}
+      HostBP    == IF HostSkip THEN {} ELSE HostBPdoc
+      \* (2) a bypass between a zone on the path of a and a zone on the path of b, both below the common ancestor, at
+      \*     whatever depths (all pairs are candidates)
+      ZoneBP    == { i \in 1..Len(zr.byp) : zr.byp[i].s \in ancA /\ zr.byp[i].d \in ancB }
+      \* order of the candidates, exactly as NetZoneImpl::get_bypass_route looks them up (the first one found is used):
+      \* the zones of each path are numbered from the end point upwards (0 = the zone of the end point), the pairs
+      \* (i, j) are visited by increasing m = max(i, j), for each m: (0,m) (m,0) (1,m) (m,1) ... (m-1,m) (m,m-1) (m,m),
+      \* i.e. (0,0) (0,1) (1,0) (1,1) (0,2) (2,0) (1,2) (2,1) (2,2) ...; PairRank is the position in that enumeration.
+      \* A bypass for the end points themselves comes first.
+      IdxA(n) == Len(pa) - (CHOOSE k \in (c + 1)..Len(pa) : P.nz[pa[k]].np = n)
+      IdxB(n) == Len(pb) - (CHOOSE k \in (c + 1)..Len(pb) : P.nz[pb[k]].np = n)
+      BPRank(i) == IF i \in HostBP THEN -1 ELSE PairRank(IdxA(zr.byp[i].s), IdxB(zr.byp[i].d))
+      BPall == HostBP \cup ZoneBP
+      BP == { i \in BPall : \A j \in BPall : BPRank(i) <= BPRank(j) }
       \* flags of the up and down segments (gateway outside the chain of zones above the end point)
       OffUp(gw) == IF gw # a /\ P.np[gw].z \notin SeqSet(pa) THEN {"offchain"} ELSE {}
       OffDn(gw) == IF gw # b /\ P.np[gw].z \notin SeqSet(pb) THEN {"offchain"} ELSE {}
@@ -108,7 +138,13 @@ Expand(P, X, dev, g) ==
           fl |-> {"bypass"} \cup (IF g.ctx # "top" THEN {"izbypass"} ELSE {}) \cup
                  \* (classification only) the end point is itself the gateway of the bypass
                  (IF (zr.byp[i].s # a /\ zr.byp[i].gs = a) \/ (zr.byp[i].d # b /\ zr.byp[i].gd = b)
-                  THEN {"bypself"} ELSE {}),
+                  THEN {"bypself"} ELSE {}) \cup
+                 \* (classification only) bypass for two end points that are not both direct members of the zone
+                 (IF i \in HostBP /\ XZone THEN {"hbypx"} ELSE {}) \cup
+                 \* (coverage) bypass between zones found at different depths below the common ancestor
+                 (IF i \notin HostBP /\ IdxA(zr.byp[i].s) # IdxB(zr.byp[i].d) THEN {"bypdepth"} ELSE {}) \cup
+                 (IF i \notin HostBP /\ Len(pa) # Len(pb) THEN {"bypskew"} ELSE {}) \cup
+                 (IF Cardinality(BPall) > 1 THEN {"bypmany"} ELSE {}),
           vt |-> <<>>,
           pts |-> (IF zr.byp[i].s = a THEN {} ELSE {zr.byp[i].gs} \ {a}) \cup
                   (IF zr.byp[i].d = b THEN {} ELSE {zr.byp[i].gd} \ {b})] : i \in BP }
@@ -144,9 +180,10 @@ Expand(P, X, dev, g) ==
   \* a declared bypass is used in priority for the route asked for; whether it also applies to the segments between an
   \* end point and a gateway is not specified (the documentation calls them recursive calls, the implementation does
   \* not look for bypasses there): both are allowed
-  IF BP = {} THEN Normal
-  ELSE IF g.ctx = "top" THEN ByPass
-  ELSE ByPass \cup Normal
+  LET Res == IF BP = {} THEN Normal
+             ELSE IF g.ctx = "top" THEN ByPass
+             ELSE ByPass \cup Normal IN
+  IF HostSkip THEN { [x EXCEPT !.fl = @ \cup {"hbypskip"}] : x \in Res } ELSE Res
 
 \* ------------------------------------------------------------------ one step of a shortest-path zone
 SpStep(P, X, dev, g) ==
@@ -162,6 +199,12 @@ SpStep(P, X, dev, g) ==
             \cup (IF rec /\ e.d = g.tgt /\ e.gd # 0 /\ e.gd # g.dst /\ P.np[e.gd].z \notin SeqSet(NPath(P, g.dst))
                   THEN {"offchain"} ELSE {})
             \cup (IF rec /\ (e.gs = 0 \/ e.gd = 0) THEN {"nogw"} ELSE {})
+            \* (classification only) a Floyd zone crossing a member zone between two different gateways asks for
+            \* route(previous gateway, next gateway) with its list under construction: when both are direct members of
+            \* a Dijkstra zone, that zone is asked to complete a route under construction (see "djkpre" in Succ)
+            \cup (IF rec /\ ~g.first /\ g.pg # e.gs /\ g.pg # 0 /\ e.gs # 0 /\ zr.kind = "floyd"
+                     /\ P.np[g.pg].z = P.np[e.gs].z /\ P.nz[P.np[g.pg].z].kind \in {"dijkstra", "dijkstracache"}
+                  THEN {"djkpre"} ELSE {})
             \cup (IF zr.kind \in {"dijkstra", "dijkstracache"} /\ Len(e.l) > 1 THEN {"djkrev"} ELSE {}),
      vt |-> <<>>,
      pts |-> IF rec THEN ({e.gs} \ {IF g.first THEN g.a ELSE g.pg}) \cup ({e.gd} \ {g.dst}) ELSE {}] : e \in H }
